@@ -40,8 +40,8 @@ SEQ_MASK = SEQ_TYPE | 0xffff
 
 def runs(tier, seed):
     if tier == "thorough":
-        return [Run("c46_sign", cases=125000, params={"subsets": 8, "maxdepth": 4}, timeout=3600)]
-    return [Run("c46_sign", cases=4000, params={"subsets": 8, "maxdepth": 4}, timeout=900)]
+        return [Run("c46_sign", cases=60000, params={"subsets": 8, "maxdepth": 4}, timeout=3600)]
+    return [Run("c46_sign", cases=2400, params={"subsets": 8, "maxdepth": 4}, timeout=900)]
 
 
 def check_after(n, tx):
